@@ -67,6 +67,12 @@ CLAIMED = {
             "rounding slack when every block normal matrix has cond <= 1e6; unpenalised reported sequences must be non-increasing. "
             "Sampled; skipped (ill-conditioned) pairs are counted and capped at 35%.",
             "Trusted: independent reconstructions; the measurable definition of 'well conditioned'.", "DESIGN.md §2 C07"),
+    "C08": ("runtime structural postcondition monitor on returned decomposition objects, on both stopping paths",
+            "Seeded configurations over 10 decomposition entry points, rank specifications (int/list/'same'/fraction), initialisations, "
+            "iteration caps 0..K and tolerances that force convergence stops; shapes vs independently derived ranks, boundary ranks, "
+            "orthonormality, core = projection, TT left-orthogonality, PARAFAC2 projections/cross-products and the normalisation "
+            "contract are checked on every returned object. Sampled, orders 2-5.",
+            "Trusted: independent rank derivations for int/list specs; validate_*_rank for 'same'/fractions.", "DESIGN.md §2 C08"),
 }
 
 PENDING_REASON = "check not built yet in this session; see DESIGN.md §2 for the planned monitor"
